@@ -47,13 +47,13 @@ type TRef struct {
 	TD   *Typedef
 }
 
-func T(k Kind) *TRef           { return &TRef{K: k} }
-func ListOf(e *TRef) *TRef     { return &TRef{K: List, Elem: e} }
-func SetOf(e *TRef) *TRef      { return &TRef{K: Set, Elem: e} }
-func MapOf(k, v *TRef) *TRef   { return &TRef{K: Map, Key: k, Elem: v} }
-func Ref(s *Struct) *TRef      { return &TRef{K: StructK, S: s} }
-func RefE(e *Enum) *TRef       { return &TRef{K: EnumK, E: e} }
-func RefTD(t *Typedef) *TRef   { return &TRef{K: TypedefK, TD: t} }
+func T(k Kind) *TRef         { return &TRef{K: k} }
+func ListOf(e *TRef) *TRef   { return &TRef{K: List, Elem: e} }
+func SetOf(e *TRef) *TRef    { return &TRef{K: Set, Elem: e} }
+func MapOf(k, v *TRef) *TRef { return &TRef{K: Map, Key: k, Elem: v} }
+func Ref(s *Struct) *TRef    { return &TRef{K: StructK, S: s} }
+func RefE(e *Enum) *TRef     { return &TRef{K: EnumK, E: e} }
+func RefTD(t *Typedef) *TRef { return &TRef{K: TypedefK, TD: t} }
 func (t *TRef) Resolve() *TRef { // strips typedefs
 	for t.K == TypedefK {
 		t = t.TD.T
@@ -204,7 +204,9 @@ func (f *File) AddService(name string, ext *Service, fns ...*Func) *Service {
 	f.Services = append(f.Services, s)
 	return s
 }
-func (f *File) Include(path string, inc *File) { f.Includes = append(f.Includes, &Include{Path: path, F: inc}) }
+func (f *File) Include(path string, inc *File) {
+	f.Includes = append(f.Includes, &Include{Path: path, F: inc})
+}
 
 // Files returns main + transitive includes (main first, deterministic order).
 func (p *Program) Files() []*File {
